@@ -1,6 +1,7 @@
 package harness
 
 import (
+	"os"
 	"fmt"
 	"sort"
 	"strings"
@@ -78,12 +79,13 @@ type Focus struct {
 	PreludePct int            // percent of cases that open with a productive prelude
 	RestartW   int            // weight of the zero-height restart action (0 = never)
 	ParamChangeW int          // weight of a governance parameter change (0 = never)
+	DenomChangePct int        // percent of the parameter changes that move the base denomination (0 = never)
 	Only20Pct  int            // percent of cases restricted to 20-byte addresses everywhere (avoids a listed finding's trigger)
 	only20     bool           // drawn per case
 }
 
 func FocusFor(prop string, tier string) Focus {
-	f := Focus{Prop: prop, MaxSteps: 32, W: map[string]int{}, WrongSign: 15, ModSvcPct: 15, Boundary: 0, PrefixProv: 20, PreludePct: 50, RestartW: 1, ParamChangeW: 1}
+	f := Focus{Prop: prop, MaxSteps: 32, W: map[string]int{}, WrongSign: 15, ModSvcPct: 15, Boundary: 0, PrefixProv: 20, PreludePct: 50, RestartW: 1, ParamChangeW: 1, DenomChangePct: 20}
 	if tier == "thorough" {
 		f.MaxSteps = 70
 	}
@@ -147,6 +149,10 @@ func FocusFor(prop string, tier string) Focus {
 		f.Boundary = 10
 		f.ModSvcPct = 30
 		mul(2, KWithdraw, KRespond)
+	}
+	if v := os.Getenv("VERIF_DENOMPCT"); v != "" {
+		fmt.Sscan(v, &f.DenomChangePct)
+		f.ParamChangeW = 4
 	}
 	return f
 }
@@ -239,6 +245,7 @@ func (g *GenState) Observe(r *StepRec) {
 		p := r.Action.Params
 		g.Cfg.Tax, g.Cfg.Slash, g.Cfg.MaxTimeout, g.Cfg.MinDeposit, g.Cfg.Multiple = p.Tax, p.Slash, p.MaxTimeout, p.MinDeposit, p.Multiple
 		g.Cfg.ArbitrationNs, g.Cfg.ComplaintNs = p.ArbitrationNs, p.ComplaintNs
+		g.Cfg.BaseDenom = p.BaseDenom
 	}
 	if r.OK {
 		g.CtxIDs = append(g.CtxIDs, r.CtxIDs...)
@@ -449,6 +456,24 @@ func (g *GenState) genProvidersList(t *rapid.T, service string) []string {
 		out = append(out, out[0])
 	}
 	return out
+}
+
+// genCapDenom: fee caps are named in the base denomination in force (mostly), so that contexts
+// can still be created and updated after a governance change of that parameter
+func (g *GenState) genCapDenom(t *rapid.T) string {
+	if g.F.DenomChangePct == 0 {
+		return ""
+	}
+	if bd := g.Cfg.baseDenom(); bd != "stake" {
+		if pct(t, "cap_in_base_denom", 70) {
+			return bd
+		}
+		return ""
+	}
+	if pct(t, "cap_in_foreign_denom", 2) {
+		return "point"
+	}
+	return ""
 }
 
 func (g *GenState) genFeeCap(t *rapid.T, service string) *int64 {
@@ -914,7 +939,19 @@ func (g *GenState) genOfKind(t *rapid.T, kind string) Action {
 		// change one or two parameters, keep the rest as they are
 		n := g.Cfg
 		n.Funding, n.ModSvc = nil, nil
-		switch pick(t, "param", []string{"min_deposit", "multiple", "slash", "tax", "periods", "max_timeout"}) {
+		which := pick(t, "param", []string{"min_deposit", "multiple", "slash", "tax", "periods", "max_timeout"})
+		if g.F.DenomChangePct > 0 && pct(t, "denom_change", g.F.DenomChangePct) {
+			which = "base_denom"
+		}
+		switch which {
+		case "base_denom":
+			// the base denomination moves to a coin nobody holds (and back): from here on deposits
+			// and fee caps in "stake" are rejected, existing records keep their "stake" amounts
+			if n.baseDenom() == "stake" {
+				n.BaseDenom = "point"
+			} else {
+				n.BaseDenom = ""
+			}
 		case "min_deposit":
 			cur := int64(0)
 			if n.MinDeposit != nil {
@@ -1035,6 +1072,7 @@ func (g *GenState) genOfKind(t *rapid.T, kind string) Action {
 		timeout := g.genTimeout(t)
 		a := Action{Kind: kind, Signer: pick(t, "consumer", Signers), Service: svc, Providers: g.genProvidersList(t, svc),
 			Input: InputOK, FeeCap: g.genFeeCap(t, svc), Timeout: timeout, Super: pct(t, "super", 10)}
+		a.CapDenom = g.genCapDenom(t)
 		if pct(t, "bad_input", 2) {
 			a.Input = pick(t, "input", []string{`{}`, ``, `[]`, `{"header":{}}`})
 		}
@@ -1100,6 +1138,7 @@ func (g *GenState) genOfKind(t *rapid.T, kind string) Action {
 		}
 		if pct(t, "upd_cap", 30) {
 			a.FeeCap = g.genFeeCap(t, rc.ServiceName)
+			a.CapDenom = g.genCapDenom(t)
 		}
 		tmo := rc.Timeout
 		if pct(t, "upd_timeout", 35) {
